@@ -35,7 +35,7 @@ void check_call_log(RunCtx& c,double t){
     if(r.kind==0){
       npre++;
       if(r.t!=t){ c.violation("C04","callback:time",names[0],"PreDerive received a time different from the stepper's"); return; }
-      if(i!=0){ c.violation("C04","callback:order",names[0],"PreDerive was not the first callback of the evaluation"); return; }
+      if(i!=0 && npre==1){ c.violation("C04","callback:order",names[0],"PreDerive was not the first callback of the evaluation"); return; }
       continue;
     }
     if(r.kind==6) continue;
@@ -44,12 +44,13 @@ void check_call_log(RunCtx& c,double t){
     if(r.ix>=p.nx||r.idx>=lim){ c.violation("C04","callback:index",names[r.kind],std::string(names[r.kind])+" called with an index outside the configured counts"); return; }
     cnt[r.kind][r.ix*lim+r.idx]++;
   }
-  if(npre!=1){ c.violation("C04","callback:count","PreDerive","PreDerive called "+std::to_string(npre)+" times in one evaluation"); return; }
+  // the property fixes the arguments of the callbacks, not how often an evaluation calls them: at least once each
+  if(npre<1){ c.violation("C04","callback:count","PreDerive","PreDerive was not called in an evaluation of the right-hand side"); return; }
   bool en[6]={false,c.sw.coh,c.sw.noncoh,c.sw.other,c.sw.gs,c.sw.os};
   for(int k=1;k<=5;k++){
     if(!en[k]) continue;
     if(k>=4 && p.nscalars==0) continue;
-    for(size_t q=0;q<cnt[k].size();q++) if(cnt[k][q]!=1){
+    for(size_t q=0;q<cnt[k].size();q++) if(cnt[k][q]<1){
       unsigned lim=(k<=3)?p.nrhos:p.nscalars;
       c.violation("C04","callback:count",names[k],std::string(names[k])+" called "+std::to_string(cnt[k][q])+" times for node "+std::to_string(q/lim)+" index "+std::to_string(q%lim)+" in one evaluation"); return;
     }
